@@ -28,6 +28,8 @@ func (v *Value) MarshalNBT(w io.Writer) (err error) {
 		length := len(v.list)
 		if length > 0 {
 			elemType = v.list[0].tag
+		} else {
+			elemType = v.elem
 		}
 
 		_, err = w.Write([]byte{elemType})
